@@ -20,7 +20,7 @@ pub mod zz_must_fail {
         ensures ext_parse(t_toks(tv, kt) + (u_toks(uv, ku) + x_toks(xv)), ev0()) is Err,
     { lemma_ext_roundtrip(tv, kt, uv, ku, xv); }
     pub proof fn zz_must_fail_locale_roundtrip(l: crate::Locale, l2: crate::Locale)
-        requires crate::locale_wf(l), crate::keys_listable(l),
+        requires crate::locale_wf(l),
             !crate::parser::locale_err(subtags_of(crate::locale_ser(l))) ==> crate::parser::locale_expected(subtags_of(crate::locale_ser(l)), l2),
         ensures l2.id.view().variants.len() == 0,
     { crate::lemma_locale_roundtrip(l, l2); }
